@@ -176,13 +176,14 @@ func (x *Exec) enterLoopHeader(cfg *Config, f *Frame, from, to *ssa.BasicBlock, 
 			}
 			st.heap[name] = x.d.Fresh(fmt.Sprintf("L%d!%s", ord, name), st.heap[name].Sort)
 		}
+		x.havocGhostState(st)
 		x.note("loop %d of %s havocs the whole heap", ord, fullKey(x.fn))
 	} else {
 		for _, name := range sortedKeys(st.heap) {
-			if name == "$top" {
-				continue // only ever grows: handled below
+			if name == "$top" || isGhostStateArr(name) {
+				continue // $top only ever grows (below); ghost state: havocGhostInLoop
 			}
-			if mods[name] || mods[strings.SplitN(name, "!len", 2)[0]] || mods[strings.SplitN(name, "!at", 2)[0]] || (mods["$callret"] && strings.HasPrefix(name, "$callret!")) || (mods["$calls"] && strings.HasPrefix(name, "$calls!")) {
+			if mods[name] || mods[strings.SplitN(name, "!len", 2)[0]] || mods[strings.SplitN(name, "!at", 2)[0]] {
 				prev := st.heap[name]
 				st.heap[name] = x.d.Fresh(fmt.Sprintf("L%d!%s", ord, name), st.heap[name].Sort)
 				x.loopFrame(st, name, prev)
@@ -194,6 +195,11 @@ func (x *Exec) enterLoopHeader(cfg *Config, f *Frame, from, to *ssa.BasicBlock, 
 			_ = name
 		}
 		x.pendingHavoc(st, mods, ord)
+		if mods["$calls"] {
+			// ghost call / once / atomic / channel state, including arrays
+			// not materialised yet
+			x.havocGhostInLoop(st)
+		}
 	}
 	if lockHavoc {
 		for _, h := range cfg.heldLocks {
@@ -279,7 +285,7 @@ func (x *Exec) loopFrameTerm(st *State, name string, cur, prev Term) {
 // entry version.
 func (x *Exec) pendingHavoc(st *State, mods map[string]bool, ord int) {
 	for name := range mods {
-		if strings.HasPrefix(name, "$") && !isGhostCallArr(name) {
+		if strings.HasPrefix(name, "$") {
 			continue
 		}
 		if _, ok := st.heap[name]; ok {
@@ -309,6 +315,8 @@ func (x *Exec) loopModSet(li *loopInfo, h *ssa.BasicBlock) (map[string]bool, boo
 			m := i.Map.Type().Underlying().(*types.Map)
 			d, v, c := x.mapNames(m)
 			mods[d], mods[v], mods[c] = true, true, true
+		case *ssa.Select:
+			x.ghostCallMods(mods)
 		case *ssa.Alloc, *ssa.MakeSlice, *ssa.MakeMap, *ssa.MakeChan, *ssa.MakeInterface:
 			mods["$top"] = true
 			if a, ok := i.(*ssa.Alloc); ok {
@@ -323,12 +331,12 @@ func (x *Exec) loopModSet(li *loopInfo, h *ssa.BasicBlock) (map[string]bool, boo
 		case ssa.CallInstruction:
 			common := i.Common()
 			mods["$top"] = true
-			// any call may execute unknown function values, atomics, Once,
-			// channel operations: the ghost histories change
-			x.ghostCallMods(mods)
 			if common.IsInvoke() {
 				if c := x.ifaceContract(common.Value.Type(), common.Method.Name()); c != nil {
 					x.contractMods(c, nil, mods)
+					if contractTouchesGhostState(c) {
+						x.ghostCallMods(mods)
+					}
 					return
 				}
 				// unknown dynamic call: may run module code of unknown type
@@ -336,10 +344,13 @@ func (x *Exec) loopModSet(li *loopInfo, h *ssa.BasicBlock) (map[string]bool, boo
 					x.modelMods(mods)
 					return
 				}
+				x.ghostCallMods(mods)
 				return
 			}
 			if b, ok := common.Value.(*ssa.Builtin); ok {
 				switch b.Name() {
+				case "close":
+					x.ghostCallMods(mods)
 				case "append":
 					if sl, ok := common.Args[0].Type().Underlying().(*types.Slice); ok {
 						x.regArr(x.elemsArr(sl.Elem()), SArr(SInt, SArr(x.idxSort(), x.sortOf(sl.Elem()))))
@@ -361,6 +372,7 @@ func (x *Exec) loopModSet(li *loopInfo, h *ssa.BasicBlock) (map[string]bool, boo
 				callee = mc.Fn.(*ssa.Function)
 			}
 			if callee == nil {
+				x.ghostCallMods(mods)
 				return // unknown function value: assumed not to touch module state
 			}
 			if _, ok := models[ssaFullName(callee)]; ok {
@@ -370,6 +382,9 @@ func (x *Exec) loopModSet(li *loopInfo, h *ssa.BasicBlock) (map[string]bool, boo
 				} else {
 					mods["$top"] = true
 				}
+				if strings.Contains(n, "sync.Once") || strings.Contains(n, "atomic") || strings.Contains(n, "Lock") {
+					x.ghostCallMods(mods)
+				}
 				return
 			}
 			body := callee
@@ -378,6 +393,9 @@ func (x *Exec) loopModSet(li *loopInfo, h *ssa.BasicBlock) (map[string]bool, boo
 			}
 			if c := x.P.ContractFor(body); c != nil && !c.Inline {
 				x.contractMods(c, body, mods)
+				if contractTouchesGhostState(c) {
+					x.ghostCallMods(mods)
+				}
 				return
 			}
 			if len(body.Blocks) > 0 && inModuleOrInlinable(body) {
@@ -650,18 +668,7 @@ func shortFuncName(key string) string {
 // ghostCallMods: the ghost arrays that calls inside a loop body may change
 // (call counters and histories, once / atomic / channel state).
 func (x *Exec) ghostCallMods(mods map[string]bool) {
-	mods["$calls"] = true
-	x.regArr("$oncedone", SArr(SInt, SBool))
-	mods["$oncedone"] = true
-	x.regArr("$atomic", SArr(SInt, x.idxSort()))
-	mods["$atomic"] = true
-	x.regArr("$atomicb", SArr(SInt, SBool))
-	mods["$atomicb"] = true
-	x.regArr("$closed", SArr(SInt, SBool))
-	mods["$closed"] = true
-	x.regArr("$recvready", SArr(SInt, SBool))
-	mods["$recvready"] = true
-	mods["$callret"] = true
+	mods["$calls"] = true // flag: handled by havocGhostInLoop
 }
 
 func isGhostCallArr(name string) bool {
@@ -670,4 +677,36 @@ func isGhostCallArr(name string) bool {
 		return true
 	}
 	return false
+}
+
+// havocGhostInLoop forgets the ghost call/once/atomic/channel state at a loop
+// head. If the function's modifies clause frames that state explicitly
+// (calls(f), atomics, ...), entries outside the frame keep their pre-loop
+// values - every call in the body is checked against the frame.
+func (x *Exec) havocGhostInLoop(st *State) {
+	if x.c == nil || !ghostExplicit(x.c) || !x.frameReady {
+		x.havocGhostState(st)
+		return
+	}
+	// explicit ghost frame: only the framed arrays change, and only at the
+	// framed entries (calls of other function values inside the loop are
+	// rejected by call-in-frame obligations)
+	o := Term{"o!gf", SInt}
+	for _, name := range sortedKeys(x.frameSorts) {
+		if !isGhostStateArr(name) {
+			continue
+		}
+		prev := x.heapGet(st, name, x.frameSorts[name])
+		x.d.fresh["gloop"]++
+		cur := x.d.Const(fmt.Sprintf("GL%d!%s", x.d.fresh["gloop"], name), prev.Sort)
+		st.heap[name] = cur
+		if x.frameWhole[name] {
+			continue
+		}
+		var conds []Term
+		for _, l := range x.frameLocs[name] {
+			conds = append(conds, Neq(o, l))
+		}
+		st.assume(Forall([]Term{o}, Implies(And(conds...), Eq(Select(cur, o), Select(prev, o))), []Term{Select(cur, o)}))
+	}
 }
